@@ -14,6 +14,7 @@ import Qsx.Model.BasisFile
 import Qsx.Model.Spec
 import Qsx.Model.Session
 import Qsx.Model.Log
+import Qsx.Model.Ratio
 open Qsx
 
 def hexVal (c : Char) : Option Nat :=
@@ -528,6 +529,19 @@ def answer (cx : Ctx) (toks : List String) : Ctx × List String :=
           A := Qsx.Store.delCols A l.toList; out := out ++ dump A []
         else failure
       pure out).run' rest
+    (cx, r.getD ["bad-op"])
+  | "ratiop2" :: rest =>
+    -- C03: ILLratio_pII_test on explicit rows: incr ebounded el eu pivtol pftol n (y x l u)*n
+    let r : Option (List String) := (do
+      let incr ← pNat; let eb ← pNat
+      let el ← pRat cx; let eu ← pRat cx; let pv ← pRat cx; let pf ← pRat cx
+      let n ← pNat
+      let rows ← pMany n (do
+        let y ← pRat cx; let x ← pRat cx; let l ← pRat cx; let u ← pRat cx
+        pure ({ y := y, x := x, l := l, u := u } : Qsx.Ratio.Row))
+      let p : Qsx.Ratio.Par := { inf := cx.pinf, pivtol := pv, pftol := pf, incr := incr == 1, ebounded := eb == 1, el := el, eu := eu }
+      let res := Qsx.Ratio.pII p rows.toList
+      pure [s!"res {res.stat.code} {res.lindex} {fmtRat cx res.tz} {fmtRat cx res.pivot} {res.lvstat} {if res.boundch then 1 else 0} {fmtRat cx res.lbound}"]).run' rest
     (cx, r.getD ["bad-op"])
   | ["mpsrange", sense, rhs, r] =>
     -- C09: what the MPS reader stores for a row of that sense / rhs with a RANGES value r ("-" = none)
